@@ -85,6 +85,7 @@ func (e *Enc) runDeferred(fr *Frame, df deferred, st *State) {
 			res = append(res, e.fresh("dr", t))
 		}
 		env2 := e.envForCall(callee, df.args, res, &s2, &pre)
+		env2.calleeFresh = true
 		for _, cl := range con.ensures {
 			t, err := env2.evalBool(cl.expr)
 			if err != nil {
